@@ -125,7 +125,13 @@ class OpBatch:
             if isinstance(obs, str):
                 obs_s = obs
             else:
-                obs_s = core.mvstr(exact_list(obs))
+                arr_ = np.asarray(obs)
+                if arr_.dtype.kind in 'fc' and not np.all(np.isfinite(arr_)):
+                    # NaN / inf on the implementation where the exact model has a value: a disagreement with this request as the
+                    # witness, not a crash of the check
+                    obs_s = 'non-finite:' + ",".join(repr(x) for x in arr_.ravel().tolist()[:16])
+                else:
+                    obs_s = core.mvstr(exact_list(obs))
             res.case(m['key'] or line, nontrivial=m['nontrivial'],
                      sample=dict(request=line[:300], observed=obs_s[:200]))
             res.count(f"{label}:{m['op']}")
